@@ -4,6 +4,7 @@ import WhVerif.Lemmas.C07
 import WhVerif.Lemmas.C07Term
 import WhVerif.Lemmas.C07Max
 import WhVerif.Lemmas.C07Fam
+import WhVerif.Lemmas.C07Pop
 /-!
 # C07 — read selection never exceeds the coverage cap and leaves no admissible read out
 
@@ -14,30 +15,11 @@ list, every cap, both settings of bridging and every list of tie choices of the 
 namespace WhVerif.Props.C07
 open WhVerif.C07
 
-/-- unpacking a successful run -/
-theorem ok_iff {fixed : Bool} {reads : List Read} {k : Nat} {br : Bool} {cs : List Nat} {sel : List Nat}
-    (h : readselection fixed reads k br cs = .ok sel) :
-    (∀ r ∈ reads, 2 ≤ r.pos.length) ∧ sel = (phases fixed reads k br cs).2.selected := by
-  unfold readselection at h
-  split at h
-  · cases h
-  · rename_i h2
-    split at h
-    · cases h
-    · simp only at h
-      split at h
-      · cases h
-      · simp only [Outcome.ok.injEq] at h
-        refine ⟨?_, h.symm⟩
-        intro r hr
-        simp only [List.any_eq_true, decide_eq_true_eq, not_exists, not_and, Nat.not_lt] at h2
-        exact h2 r hr
-
 /-- **subset**: the result is a duplicate-free set of indices of input reads -/
 theorem subset (fixed : Bool) (reads : List Read) (k : Nat) (br : Bool) (cs : List Nat) (sel : List Nat)
     (h : readselection fixed reads k br cs = .ok sel) :
     sel.Nodup ∧ ∀ i ∈ sel, i < reads.length := by
-  obtain ⟨-, rfl⟩ := ok_iff h
+  obtain ⟨-, rfl⟩ := readselection_ok h
   have := (phases_good fixed reads k br cs).2
   exact ⟨this.1, this.2.1⟩
 
@@ -46,7 +28,7 @@ last covered variant, by more than `k` selected reads -/
 theorem cap_invariant_own (fixed : Bool) (reads : List Read) (k : Nat) (br : Bool) (cs : List Nat) (sel : List Nat)
     (h : readselection fixed reads k br cs = .ok sel) :
     ∀ p ∈ positions reads, countSel reads sel p ≤ k := by
-  obtain ⟨-, rfl⟩ := ok_iff h
+  obtain ⟨-, rfl⟩ := readselection_ok h
   have := (phases_good fixed reads k br cs).2
   intro p hp
   exact Nat.le_trans (this.2.2.1 p) (this.2.2.2 p hp)
@@ -76,6 +58,13 @@ theorem slice_terminates (reads : List Read) (P : List Nat) (k : Nat) (st : Slic
     (sliceLoop reads P k st.pq.length st).pq = [] :=
   sliceLoop_pq_nil reads P k _ st (Nat.le_refl _)
 
+/-- the abstract priority queue: `pop` on a non-empty queue returns an entry whose 3-score no queued entry
+exceeds (lexicographically), and removes exactly that entry -/
+theorem pop_returns_maximal (pq : List Entry) (c ci : Nat) (e : Entry) (pq' : List Entry)
+    (h : popChoice pq c = some (ci, e, pq')) :
+    e ∈ pq ∧ pq'.length + 1 = pq.length ∧ ∀ f ∈ pq, e.score.lt f.score = false :=
+  ⟨popChoice_mem h, popChoice_length h, popChoice_isMax h⟩
+
 theorem bridge_terminates (reads : List Read) (P : List Nat) (k : Nat) (st : BridgeSt) :
     (bridgeLoop reads P k st.pq.length st).pq = [] :=
   bridgeLoop_pq_nil reads P k _ st (Nat.le_refl _)
@@ -90,7 +79,7 @@ theorem cap_invariant (fixed : Bool) (reads : List Read) (k : Nat) (br : Bool) (
   intro q
   have hsub := subset fixed reads k br cs sel h
   have hown := cap_invariant_own fixed reads k br cs sel h
-  obtain ⟨h2, -⟩ := ok_iff h
+  obtain ⟨h2, -⟩ := readselection_ok h
   have hne : ∀ r ∈ reads, r.pos ≠ [] := by
     intro r hr h0
     have := h2 r hr
@@ -106,7 +95,7 @@ theorem maximal (reads : List Read) (k : Nat) (br : Bool) (cs : List Nat) (sel :
     (h : readselection true reads k br cs = .ok sel) :
     ∀ i, i < reads.length → i ∉ sel →
       ∃ p ∈ positions reads, (getRead reads i).spans p = true ∧ k ≤ countSel reads sel p := by
-  obtain ⟨h2, rfl⟩ := ok_iff h
+  obtain ⟨h2, rfl⟩ := readselection_ok h
   have hm := phases_max reads k br cs h2
   have ht := (phases_terminate true reads k br cs h2).2
   intro i hi hns
@@ -229,6 +218,9 @@ theorem allOutcomes_sound (fixed : Bool) (reads : List Read) (k : Nat) (br : Boo
         · exact List.mem_cons_of_mem _ (ih x hx)
   obtain ⟨cs, -, hcs⟩ := List.mem_map.mp (hsub _ o h)
   exact ⟨cs, hcs.symm⟩
+
+example : popChoice [⟨0, ⟨1, 1, 5⟩⟩, ⟨1, ⟨2, 0, 0⟩⟩, ⟨2, ⟨2, 0, 0⟩⟩] 3 = some (1, ⟨2, ⟨2, 0, 0⟩⟩, [⟨0, ⟨1, 1, 5⟩⟩, ⟨1, ⟨2, 0, 0⟩⟩]) := by
+  decide
 
 /-! ### non-vacuity: the hypotheses are satisfiable, with a forced rejection -/
 
